@@ -6,5 +6,5 @@ CONSTANTS
   Big = FALSE
   MaxFrames = 2
   MaxReads = 2
-INVARIANTS MarshalCounts ChunkIndependent RoundTrip SuccessNeedsFrame ReadPosInside
+INVARIANTS TwoWritesAreAny MarshalCounts ChunkIndependent RoundTrip SuccessNeedsFrame ReadPosInside
 CHECK_DEADLOCK FALSE
